@@ -77,11 +77,25 @@ type Case struct {
 type graph struct {
 	r    *c.Rng
 	mods []*LMod
+	// witness control: the next importer also imports function forceName of module forceMod; with forceType0 that
+	// import is declared with the exporter MODULE's type 0 (the confusion the seeded typeOfFunction defect produces)
+	forceMod   int
+	forceName  string
+	forceType0 bool
 }
 
 func (g *graph) newMod() *LMod {
 	m := &LMod{N: len(g.mods), View: &c.ModSpec{}, Start: -1, Fault: "none"}
 	m.Name = fmt.Sprintf("m%d", m.N)
+	// the module's type 0 is often unrelated to the functions it imports and re-exports
+	switch g.r.Intn(4) {
+	case 0:
+		m.View.TypeIdx(c.Sig{})
+	case 1:
+		m.View.TypeIdx(c.Sig{P: []byte{c.I64}, R: []byte{c.I64}})
+	case 2:
+		m.View.TypeIdx(c.Sig{P: []byte{c.I32, c.I64}, R: []byte{c.I64}})
+	}
 	g.mods = append(g.mods, m)
 	return m
 }
@@ -305,10 +319,40 @@ func (g *graph) importer(exps []*LMod, fault string) *LMod {
 		m.FObj = append(m.FObj, x.FObj[i])
 		m.NImpF++
 	}
+	if g.forceName != "" {
+		x := g.mods[g.forceMod]
+		add(x, g.forceName)
+		var k int
+		fmt.Sscanf(g.forceName[1:], "%d", &k)
+		m.FObj = append(m.FObj, x.FObj[k])
+		m.NImpF++
+	}
+	// the import section interleaves the kinds at random (the order within one kind, i.e. the index spaces, is kept)
+	{
+		var byKind [4][]Import
+		for _, im := range m.Imports {
+			byKind[im.Kind] = append(byKind[im.Kind], im)
+		}
+		var mixed []Import
+		for len(mixed) < len(m.Imports) {
+			k := r.Intn(4)
+			if len(byKind[k]) > 0 {
+				mixed = append(mixed, byKind[k][0])
+				byKind[k] = byKind[k][1:]
+			}
+		}
+		m.Imports = mixed
+	}
 	// one deliberately incompatible / risky import
 	if fault == "import" && len(m.Imports) > 0 {
 		pos := r.Intn(len(m.Imports))
-		if r.Intn(5) < 3 { // limits are where the interesting comparisons are: prefer the memory / table import
+		if g.forceName != "" && g.forceType0 {
+			for i, x := range m.Imports {
+				if x.Kind == 0 && x.Mod == g.forceMod && x.Name == g.forceName {
+					pos = i
+				}
+			}
+		} else if r.Intn(5) < 3 { // limits are where the interesting comparisons are: prefer the memory / table import
 			var lim []int
 			for i, x := range m.Imports {
 				if x.Kind == 1 || x.Kind == 2 {
@@ -330,7 +374,13 @@ func (g *graph) importer(exps []*LMod, fault string) *LMod {
 		switch o.Kind {
 		case 0:
 			s := c.Sig{P: append([]byte{}, o.Sig.P...), R: append([]byte{}, o.Sig.R...)}
-			switch k := r.Intn(4); {
+			t0 := g.mods[im.Mod].View.Types
+			im.Variant = "sig"
+			switch k := r.Intn(6); {
+			case (k >= 4 || g.forceType0) && len(t0) > 0 && t0[0].Key() != o.Sig.Key():
+				// declared with the exporter module's type 0: wrong, and exactly what a confused exporter would report
+				s = c.Sig{P: append([]byte{}, t0[0].P...), R: append([]byte{}, t0[0].R...)}
+				im.Variant = "sig-type0"
 			case k == 0 && len(s.P) > 0:
 				j := r.Intn(len(s.P))
 				s.P[j] = flipVT(s.P[j])
@@ -341,7 +391,7 @@ func (g *graph) importer(exps []*LMod, fault string) *LMod {
 			default:
 				s.R = append(s.R, c.I64)
 			}
-			im.Sig, im.Variant = s, "sig"
+			im.Sig = s
 			m.FObj[slot] = &Obj{Kind: 0, Owner: -1, Sig: s} // the module is written against its own declaration
 		case 1, 2:
 			vs := []string{"min+1", "min+5", "kind", "noname"}
@@ -661,13 +711,16 @@ func (g *graph) build(id int, witness string) *Case {
 	if witness == "w-reexport" {
 		nimp = 3
 	}
+	if witness == "w-typeof" {
+		nimp = 2
+	}
 	for k := 0; k < nimp; k++ {
 		f := faults[r.Intn(len(faults))]
 		if witness != "" {
 			f = witness
 		}
 		tries := []string{f}
-		if f != "none" && f != "w-reexport" {
+		if f != "none" && f != "w-reexport" && !(f == "w-typeof" && k == 0) {
 			tries = append(tries, "none") // the repaired variant follows the failing one
 		}
 		for _, ft := range tries {
@@ -681,6 +734,25 @@ func (g *graph) build(id int, witness string) *Case {
 				m = g.importerWith(good, "data", func(m *LMod) bool { return m.TObj != nil && m.TObj.Owner != m.N && m.MObj != nil && m.MObj.Owner != m.N && len(m.Elems) > 0 })
 			case "w-elemoob":
 				m = g.importerWith(good, "elem", func(m *LMod) bool { return m.MObj != nil && m.MObj.Owner != m.N && len(m.Datas) > 0 && m.TObj != nil && m.TObj.Owner != m.N })
+			case "w-typeof":
+				if k == 0 {
+					// b: a non-function import sits directly before the import of its function 0, which it re-exports,
+					// and b's type 0 is not that function's type
+					m = g.importerWith(good, "none", func(m *LMod) bool {
+						for p, im := range m.Imports {
+							if im.Kind == 0 {
+								return p > 0 && m.Imports[p-1].Kind != 0 && len(m.View.Types) > 0 && m.View.Types[0].Key() != m.FObj[0].Sig.Key()
+							}
+						}
+						return false
+					})
+					ft = "none"
+				} else {
+					// d: imports b's re-exported function declared with b's type 0 (must be unlinkable); then c (next try) with its real type
+					g.forceMod, g.forceName, g.forceType0 = 1, "f0", true
+					m = g.importer(good, "import")
+					g.forceType0 = false
+				}
 			case "w-grown":
 				m = g.importerWith(good, "import", func(m *LMod) bool {
 					for _, im := range m.Imports {
@@ -738,6 +810,7 @@ func (g *graph) build(id int, witness string) *Case {
 			}
 		}
 	}
+	g.forceName = ""
 	snaps(&steps, live, "final", -1)
 	cs.Steps = steps
 	cs.lm = g.mods
@@ -951,7 +1024,7 @@ func main() {
 	defer out.Flush()
 	var cases []*Case
 	// fixed witnesses of the known deviations, then random graphs
-	for _, w := range []string{"w-mutoff", "w-maxlimit", "w-dataelem", "w-elemoob", "w-reexport", "w-grown"} {
+	for _, w := range []string{"w-mutoff", "w-maxlimit", "w-dataelem", "w-elemoob", "w-reexport", "w-grown", "w-typeof"} {
 		g := &graph{r: c.NewRng(rng.U64())}
 		cases = append(cases, g.build(len(cases), w))
 	}
